@@ -1,7 +1,444 @@
-//! C12 engine (not yet built).
-use crate::common::{CaseWriter, Opts};
+//! C12 — std.format / `str % vals`.
+//! Runs the real `std_format` (and, for a sample, the evaluator's `%` operator and `std.format`
+//! builtin from source text) on
+//!   (a) the full cross product flags(2^5) x width{none,0,1,5,*} x precision{none,.0,.1,.3,.*}
+//!       x 15 conversions x values,
+//!   (b) every string of length <= 4 over the alphabet `%(.*0-+ #dsxg)k5` (parse outcome; the
+//!       ones of length <= 3 are also formatted in three argument modes),
+//!   (c) argument-count / `*` / object-mode / multi-code cases, seeded random format strings.
+//! Numbers travel as exact decimal strings of floor|v| plus sign/fraction bits; the double ->
+//! decimal pipeline of render_float (mul_add/floor/%/log10/powf) is recomputed here and sent as
+//! the "digit oracle" (the Lean model does not model floating point).
+use jrsonnet_evaluator::{
+	error::ErrorKind,
+	stdlib::{
+		format::{parse_codes, FormatError},
+		std_format,
+	},
+	val::ArrValue,
+	State, Val,
+};
+use serde_json::{json, Value};
+
+use crate::common::{guarded, new_state, CaseWriter, Opts, Rng};
+
+fn cps(s: &str) -> Vec<u32> {
+	s.chars().map(|c| c as u32).collect()
+}
+
+/// exact decimal text of an integer-valued non-negative double
+fn exact(x: f64) -> String {
+	if x.is_nan() {
+		"0".to_owned() // `NaN as i64`
+	} else if x.is_infinite() {
+		"9223372036854775808".to_owned() // saturates in `as i64`
+	} else {
+		format!("{x:.0}")
+	}
+}
+
+/// the digit pipeline of `render_float` for (n, precision)
+fn dig(n: f64, precision: u16) -> (String, String) {
+	let denominator = 10.0f64.powi(i32::from(precision));
+	let numerator = n.abs().mul_add(denominator, 0.5);
+	let whole = (numerator / denominator).floor();
+	let frac = numerator.floor() % denominator;
+	(exact(whole), exact(frac))
+}
+
+/// exponent and mantissa of `render_float_sci`
+fn exp_mant(n: f64) -> (f64, f64) {
+	let exponent = if n == 0.0 { 0.0 } else { n.abs().log10().floor() };
+	let mantissa = if exponent as i16 == -324 {
+		n * 10.0 / 10.0_f64.powf(exponent + 1.0)
+	} else {
+		n / 10.0_f64.powf(exponent)
+	};
+	(exponent, mantissa)
+}
+
+#[derive(Clone)]
+struct V {
+	src: String, // jsonnet source of the value
+	val: Val,
+	num: Option<f64>,
+	kind: &'static str,
+}
+
+fn mkval(s: &State, src: &str, kind: &'static str) -> V {
+	let val = s.evaluate_snippet("<v>".to_owned(), src.to_owned()).expect("value literal");
+	let num = match &val {
+		Val::Num(n) => Some(n.get()),
+		_ => None,
+	};
+	V { src: src.to_owned(), val, num, kind }
+}
+
+/// JSON description of a value for the Lean driver; `precs` = float precisions the oracle must cover
+fn describe(v: &Val, precs: &[u16]) -> Value {
+	let disp = |v: &Val| -> Vec<u32> {
+		match guarded(|| v.clone().to_string()) {
+			Ok(Ok(s)) => cps(&s),
+			_ => cps("<to_string failed>"),
+		}
+	};
+	match v {
+		Val::Num(n) => {
+			let x = n.get();
+			let a = x.abs();
+			let (e, m) = exp_mant(x);
+			let mut fix = vec![];
+			let mut sci = vec![];
+			for p in precs {
+				let (w, f) = dig(x, *p);
+				fix.push(json!([p, w, f]));
+				let (w, f) = dig(m, *p);
+				sci.push(json!([p, w, f]));
+			}
+			json!({"k":"num","neg": x < 0.0,"whole": exact(a.floor()),"frac": a.fract() != 0.0,
+				"exp": e as i64,"fix":fix,"sci":sci,"disp":disp(v),"_bits":format!("{:016x}", x.to_bits())})
+		}
+		Val::Str(s) => json!({"k":"str","s":cps(&s.clone().into_flat())}),
+		Val::Obj(o) => {
+			let mut fs = vec![];
+			for name in o.fields_ex(true) {
+				if let Ok(Some(fv)) = o.get(name.clone()) {
+					fs.push(json!([cps(&name), describe(&fv, precs)]));
+				}
+			}
+			json!({"k":"obj","f":fs,"disp":disp(v)})
+		}
+		_ => json!({"k":"other","disp":disp(v)}),
+	}
+}
+
+fn err_name(e: &jrsonnet_evaluator::Error) -> &'static str {
+	match e.error() {
+		ErrorKind::Format(f) => match f {
+			FormatError::TruncatedFormatCode => "truncated",
+			FormatError::UnrecognizedConversionType(_) => "unknownConv",
+			FormatError::FieldWidthTooLarge => "tooLarge",
+			FormatError::NotEnoughValues => "notEnough",
+			FormatError::CannotUseStarWidthWithObject => "starObj",
+			FormatError::MappingKeysRequired => "keysRequired",
+			FormatError::NoSuchFormatField(_) | FormatError::SubfieldNotFound { .. } => "noField",
+			FormatError::SubfieldDidntYieldAnObject(..) => "notObj",
+		},
+		ErrorKind::RuntimeError(m) => {
+			if m.starts_with("too many values") {
+				"tooMany"
+			} else if m.starts_with("cannot convert number with fractional") || m.starts_with("%c expected") {
+				"type"
+			} else {
+				"runtime"
+			}
+		}
+		ErrorKind::TypeMismatch(..) | ErrorKind::TypeError(..) => "type",
+		ErrorKind::InvalidUnicodeCodepointGot(_) => "codepoint",
+		_ => "other",
+	}
+}
+
+fn answer(r: Result<jrsonnet_evaluator::Result<String>, String>) -> Value {
+	match r {
+		Ok(Ok(s)) => json!({"ok": cps(&s)}),
+		Ok(Err(e)) => json!({"err": err_name(&e), "_msg": format!("{}", e.error())}),
+		Err(p) => json!({"err": "panic", "_msg": p}),
+	}
+}
+
+/// float precisions that `format_code` can ask the digit pipeline for, given the code's precision
+fn needed_precs(prec: Option<u16>, x: Option<f64>) -> Vec<u16> {
+	let Some(x) = x else { return vec![] };
+	let p = prec.unwrap_or(6);
+	let pg = p.max(1);
+	let (e, _) = exp_mant(x);
+	let mut v = vec![p, pg - 1];
+	if e >= 0.0 && e < f64::from(pg) {
+		v.push(pg - 1u16.max(e as u16 + 1));
+	} else {
+		v.push(pg - 1);
+	}
+	v.sort_unstable();
+	v.dedup();
+	v
+}
+
+struct Ctx<'a> {
+	s: &'a State,
+	w: CaseWriter,
+	n_eval: usize,
+	hist: std::collections::BTreeMap<String, usize>,
+}
+
+impl Ctx<'_> {
+	fn bump(&mut self, k: &str) {
+		*self.hist.entry(k.to_owned()).or_default() += 1;
+	}
+
+	/// one case in array/single mode. `precs`: oracle precisions for numeric values
+	fn case(&mut self, tag: &str, fmt: &str, mode: &str, vals: &[V], precs: &[u16], eval_too: bool, trivial: bool) {
+		let arg = if mode == "arr" {
+			Val::Arr(ArrValue::eager(vals.iter().map(|v| v.val.clone()).collect()))
+		} else {
+			vals[0].val.clone()
+		};
+		let r = guarded(|| std_format(fmt, arg));
+		let descr: Vec<Value> = vals.iter().map(|v| describe(&v.val, precs)).collect();
+		let size = fmt.chars().count() + vals.len();
+		let mut op = json!({"op":"fmt","fmt":cps(fmt),"mode":mode,"vals":descr,"size":size,"_fmt":fmt,"_tag":tag,"via":"direct"});
+		if trivial {
+			op["trivial"] = json!(true);
+		}
+		let direct = answer(r);
+		self.w.case(op.clone(), direct.clone());
+		self.bump(tag);
+		if eval_too {
+			// the same through source text: `fmt % vals` (evaluate/operator.rs) and std.format
+			let vsrc = if mode == "arr" {
+				format!("[{}]", vals.iter().map(|v| v.src.clone()).collect::<Vec<_>>().join(","))
+			} else {
+				vals[0].src.clone()
+			};
+			let f = serde_json::to_string(fmt).expect("json str");
+			for (via, code) in [("percent", format!("{f} % {vsrc}")), ("std.format", format!("std.format({f}, {vsrc})")), ("std.mod", format!("std.mod({f}, {vsrc})"))] {
+				let r = guarded(|| -> jrsonnet_evaluator::Result<String> {
+					let v = self.s.evaluate_snippet("<c12>".to_owned(), code.clone())?;
+					match v {
+						Val::Str(s) => Ok(s.into_flat().to_string()),
+						_ => Ok("<not a string>".to_owned()),
+					}
+				});
+				op["via"] = json!(via);
+				op["_src"] = json!(code);
+				self.w.case(op.clone(), answer(r));
+				self.n_eval += 1;
+			}
+		}
+	}
+}
+
+const CONVS: &[char] = &['d', 'i', 'u', 'o', 'x', 'X', 'e', 'E', 'f', 'F', 'g', 'G', 'c', 's', '%'];
+const FLAGS: &[char] = &['#', '0', '-', ' ', '+'];
 
 pub fn run(opts: &Opts) {
-	let w = CaseWriter::new(&opts.out);
-	w.finish(serde_json::json!({"engine":"c12","cases":0,"rule":"stub"}), &opts.out);
+	let s = new_state();
+	let _g = s.enter();
+	let mut cx = Ctx { s: &s, w: CaseWriter::new(&opts.out), n_eval: 0, hist: Default::default() };
+	let mut rng = Rng::new(opts.seed);
+
+	// ---- values ------------------------------------------------------------------------------
+	let value_srcs: &[(&str, &'static str)] = &[
+		("0", "zero"),
+		("1", "int"),
+		("42", "int"),
+		("-3", "negint"),
+		("255", "int"),
+		("0.5", "frac"),
+		("-0.5", "negfrac"),
+		("-1.5", "negfrac"),
+		("123456.789", "frac"),
+		("1e21", "huge"),
+		("1e-7", "tiny"),
+		("9007199254740993", "big"),
+		("65", "int"),
+		("\"\"", "str"),
+		("\"a\"", "str"),
+		("\"héllo\"", "str-nonascii"),
+		("\"日本\"", "str-nonascii"),
+		("[1,\"x\"]", "array"),
+		("{a:1}", "object"),
+		("null", "null"),
+	];
+	let more_srcs: &[(&str, &'static str)] = &[
+		("-1", "negint"),
+		("8", "int"),
+		("9", "int"),
+		("10", "int"),
+		("99.5", "frac"),
+		("0.0001234", "tiny"),
+		("999999.5", "frac"),
+		("-1e21", "huge"),
+		("9223372036854775807", "big"),
+		("9223372036854775808", "huge"),
+		("-9223372036854775808", "huge"),
+		("4294967296", "big"),
+		("55296", "int"),
+		("1114111", "int"),
+		("1114112", "int"),
+		("2.5", "frac"),
+		("1e15", "big"),
+		("true", "bool"),
+		("\"ab\"", "str"),
+		("\"%\"", "str"),
+	];
+	let values: Vec<V> = value_srcs.iter().map(|(src, k)| mkval(&s, src, k)).collect();
+	let more: Vec<V> = more_srcs.iter().map(|(src, k)| mkval(&s, src, k)).collect();
+	let numv = |x: &str| mkval(&s, x, "int");
+
+	// ---- (a) full cross product -------------------------------------------------------------------
+	let widths = ["", "0", "1", "5", "*"];
+	let precs = ["", ".0", ".1", ".3", ".*"];
+	let star_w: Vec<V> = ["0", "1", "3", "7", "12"].iter().map(|x| numv(x)).collect();
+	let star_p: Vec<(u16, V)> = [0u16, 1, 2, 4, 9].iter().map(|x| (*x, numv(&x.to_string()))).collect();
+	let mut n_cross = 0usize;
+	let thorough = opts.thorough();
+	for fl in 0u32..32 {
+		let flags: String = FLAGS.iter().enumerate().filter(|(i, _)| fl >> i & 1 == 1).map(|(_, c)| *c).collect();
+		for wd in widths {
+			for pr in precs {
+				for cv in CONVS {
+					let vs: Vec<&V> = if thorough { values.iter().chain(more.iter()).collect() } else { values.iter().collect() };
+					for (vi, v) in vs.iter().enumerate() {
+						let fmt = format!("%{flags}{wd}{pr}{cv}|");
+						let mut args: Vec<V> = vec![];
+						let mut p: Option<u16> = match pr {
+							"" => None,
+							".0" => Some(0),
+							".1" => Some(1),
+							".3" => Some(3),
+							_ => None,
+						};
+						if wd == "*" {
+							args.push(rng.pick(&star_w).clone());
+						}
+						if pr == ".*" {
+							let sp = rng.pick(&star_p);
+							p = Some(sp.0);
+							args.push(sp.1.clone());
+						}
+						if *cv != '%' {
+							args.push((*v).clone());
+						} else if vi > 0 {
+							continue; // %% takes no value: one case per code
+						}
+						let np = needed_precs(p, v.num);
+						// the evaluator path for a deterministic 1-in-16 sample
+						let eval_too = n_cross % 16 == 0;
+						cx.case(&format!("cross:{cv}:{}", v.kind), &fmt, "arr", &args, &np, eval_too, false);
+						n_cross += 1;
+					}
+				}
+			}
+		}
+	}
+
+	// ---- (b) malformed / truncated: every string of length <= 4 over a small alphabet ----------------
+	let alphabet: Vec<char> = "%(.*0-+ #dsxg)k5".chars().collect();
+	let mut n_mal = 0usize;
+	let a3 = numv("3");
+	let a7 = numv("7");
+	let ao = mkval(&s, "{k:5,\"5\":\"v\",\"\":1,d:{k:\"in\"}}", "object");
+	let mut buf: Vec<usize> = vec![];
+	loop {
+		let st: String = buf.iter().map(|i| alphabet[*i]).collect();
+		// parse outcome of every string
+		let r = guarded(|| parse_codes(&st).map(|es| es.len()));
+		let ans = match r {
+			Ok(Ok(n)) => {
+				let codes = st.matches('%').count();
+				let _ = codes;
+				json!({"ok": n, "codes": count_codes(&st)})
+			}
+			Ok(Err(e)) => json!({"err": err_name(&e)}),
+			Err(p) => json!({"err":"panic","_msg":p}),
+		};
+		cx.w.case(json!({"op":"fmt.parse","fmt":cps(&st),"size":st.len(),"_fmt":st,"trivial": !st.contains('%')}), ans);
+		n_mal += 1;
+		if buf.len() <= 3 && st.contains('%') {
+			cx.case("malformed:arr1", &st, "arr", &[a3.clone()], &[0, 1, 2, 3, 4, 5, 6, 7], false, false);
+			cx.case("malformed:arr2", &st, "arr", &[a3.clone(), a7.clone()], &[0, 1, 2, 3, 4, 5, 6, 7], false, false);
+			cx.case("malformed:obj", &st, "single", &[ao.clone()], &[0, 1, 2, 3, 4, 5, 6, 7], false, false);
+		}
+		// next string
+		let mut i = buf.len();
+		loop {
+			if i == 0 {
+				buf = vec![0; buf.len() + 1];
+				break;
+			}
+			i -= 1;
+			if buf[i] + 1 < alphabet.len() {
+				buf[i] += 1;
+				for b in buf.iter_mut().skip(i + 1) {
+					*b = 0;
+				}
+				break;
+			}
+		}
+		if buf.len() > 4 {
+			break;
+		}
+	}
+
+	// ---- (c) argument counts, `*`, object mode, literal text, multi-code strings ---------------------
+	let lits = ["", "plain", "é日本", "a\nb", "100 percent", "x%%y", "%%", "%%%%"];
+	for l in lits {
+		for n in 0..3 {
+			let args: Vec<V> = (0..n).map(|_| a3.clone()).collect();
+			cx.case("literal", l, "arr", &args, &[6, 5], true, false);
+		}
+		cx.case("literal", l, "single", &[a3.clone()], &[6, 5], true, false);
+		cx.case("literal", l, "single", &[ao.clone()], &[6, 5], true, false);
+	}
+	let multi = [
+		"%d %s %x", "%s%s", "%*d|%-*d|", "%.*f %d", "%*.*f", "%d%%%d", "%5s|%-5s|%05d", "%(k)d", "%(k)s and %(d.k)s",
+		"%(d.k)5s|", "%(k.x)s", "%(nope)s", "%(d.nope)s", "%()s", "%s", "%(k)*d", "%(k).*f", "%(k)%", "%%", "%5%|%-5%|",
+		"%(5)s", "%(k)05d|%(k)-5d|%(k)+d", "%ld %hd %Lf %lld", "%c%c", "%(d)s", "%i-%u", "% d|%+d|% +d",
+	];
+	let arg_sets: Vec<Vec<V>> = vec![
+		vec![],
+		vec![a3.clone()],
+		vec![a3.clone(), a7.clone()],
+		vec![a3.clone(), a7.clone(), numv("2")],
+		vec![a3.clone(), a7.clone(), numv("2"), numv("1.25")],
+		vec![a3.clone(), a7.clone(), numv("2"), numv("1.25"), values[14].clone()],
+		vec![values[15].clone(), values[14].clone(), a3.clone()],
+		vec![numv("-2"), a3.clone()],
+		vec![numv("1.5"), a3.clone()],
+		vec![numv("65536"), a3.clone()],
+		vec![numv("65535"), a3.clone()],
+		vec![values[14].clone(), a3.clone()],
+	];
+	for f in multi {
+		for a in &arg_sets {
+			cx.case("args:arr", f, "arr", a, &[6, 5, 3, 2, 7, 1, 0, 65535, 65534], true, false);
+		}
+		cx.case("args:obj", f, "single", &[ao.clone()], &[6, 5, 3, 2, 7, 1, 0, 65535, 65534], true, false);
+		cx.case("args:single", f, "single", &[a7.clone()], &[6, 5, 3, 2, 7, 1, 0, 65535, 65534], true, false);
+		cx.case("args:single", f, "single", &[values[19].clone()], &[6, 5], true, false);
+	}
+	// wide fields, long strings, widths near the u16 boundary
+	let long = mkval(&s, "std.repeat(\"é\", 70000)", "str-nonascii");
+	for f in ["%70000d", "%65535d|", "%65536d", "%99999d", "%.65535d", "%.65536d", "%5s|", "%-5s|", "%065535d", "%#65535x", "%-65535o|"] {
+		cx.case("wide", f, "arr", &[a3.clone()], &[6], false, false);
+		cx.case("wide", f, "arr", &[long.clone()], &[6], false, false);
+	}
+	// seeded random format strings over a richer alphabet with 0..4 random values
+	let n_rand = if thorough { 60000 } else { 8000 };
+	let pool: Vec<V> = values.iter().chain(more.iter()).cloned().collect();
+	let ralpha: Vec<char> = "%%%%(.*0-+ #diuoxXcs)k5hlL1ab é".chars().collect();
+	for _ in 0..n_rand {
+		let len = 1 + rng.below(9);
+		let st: String = (0..len).map(|_| *rng.pick(&ralpha)).collect();
+		let nv = rng.below(4);
+		let args: Vec<V> = (0..nv).map(|_| if rng.chance(1, 2) { a3.clone() } else { rng.pick(&pool).clone() }).collect();
+		cx.case("random", &st, "arr", &args, &[0, 1, 2, 3, 4, 5, 6, 7], false, false);
+	}
+
+	let meta = json!({
+		"engine":"c12","cases":cx.w.n,"cross_product":n_cross,"malformed_strings":n_mal,"via_evaluator":cx.n_eval,
+		"random":n_rand,"hist":cx.hist,
+		"rule":"flags(2^5) x width{none,0,1,5,*} x precision{none,.0,.1,.3,.*} x 15 conversions x values (ints, fractions, negative, zero, 1e21, 1e-7, 2^53+1, strings ASCII/non-ASCII, array, object, null) through std_format (1 in 16 also through `%`, std.format and std.mod from source); every string of length <= 4 over `%(.*0-+ #dsxg)k5` parsed (length <= 3 also formatted in 3 argument modes); argument-count/star/object-mode/wide-field tables; seeded random format strings"
+	});
+	cx.w.finish(meta, &opts.out);
+}
+
+/// number of `%` that start a code in a *well-formed* format string is what parse_codes reports as
+/// Code elements; the harness recounts it from the parse result instead
+fn count_codes(st: &str) -> usize {
+	match parse_codes(st) {
+		Ok(es) => es.iter().filter(|e| matches!(e, jrsonnet_evaluator::stdlib::format::Element::Code(_))).count(),
+		Err(_) => 0,
+	}
 }
